@@ -50,28 +50,27 @@ func vC44_idIndex(id string) int {
 func vC44_wtell(x *workPullingProducerController, ctx *ReceiveContext, to *PID, message any) {
 	if sm, ok := message.(*commands.SequencedMessage); ok {
 		vC44_emitted++
-		owner, underDemand, assigned, hit, same := 0, true, true, 0, true
+		owner, underDemand, assigned, same := 0, true, true, true
 		for w := 0; w < 2; w++ {
 			b := x.bindings[vC44_names[w]]
 			if b != nil && b.controller == to {
 				owner++
 				underDemand = underDemand && sm.Seq() <= b.demandUpTo
 				assigned = assigned && sm.Seq() > b.confirmedSeq && sm.Seq() <= b.currentSeq
-				for i := 0; i < vC44_lim; i++ {
-					if i < len(b.unconfirmed) && b.unconfirmed[i].workerSeq == sm.Seq() {
-						hit++
-						e := b.unconfirmed[i]
-						j := vC44_idIndex(e.messageID)
-						same = same && sm.MessageID() == e.messageID && j >= 0 && vC42x_is1(sm.Payload(), vC44_pay[j])
-					}
+				// the unconfirmed list is ascending and contiguous from confirmedSeq+1 (Inv): the entry sits at a known index
+				i := int(sm.Seq() - b.confirmedSeq - 1)
+				if i >= 0 && i < len(b.unconfirmed) && i < vC44_lim {
+					e := b.unconfirmed[i]
+					j := vC44_idIndex(e.messageID)
+					same = same && e.workerSeq == sm.Seq() && sm.MessageID() == e.messageID && j >= 0 && vC42x_is1(sm.Payload(), vC44_pay[j])
+				} else {
+					same = false
 				}
 			}
 		}
 		vAssert(owner == 1, "a sequenced job goes to the controller of exactly one live binding")
 		vAssert(underDemand, "a job is emitted to a worker only at or below that worker's granted demand (workerSeq <= demandUpTo)")
-		vAssert(assigned, "a job is emitted under a sequence assigned to that worker and not yet confirmed")
-		vAssert(hit == 1 && same, "the emitted job is the one recorded (exactly once) as unconfirmed for that worker under that sequence, with its payload")
-		vAssert(sm.SessionID() == x.sessionID, "emissions carry the controller's session")
+		vAssert(assigned && same && sm.SessionID() == x.sessionID, "the emitted job is the one recorded as unconfirmed for that worker under that sequence (assigned, not yet confirmed), with its payload and the controller's session")
 	}
 	if dc, ok := message.(*DeliveryConfirmed); ok {
 		j := vC44_idIndex(dc.MessageID())
@@ -228,47 +227,21 @@ func vC44_step() {
 	vAssume(vC44_invOrder(x) && vC44_invBinding(x, 0) && vC44_invBinding(x, 1) && vC44_invPending(x))
 
 	// ---- the message
-	// case split: 0 RegisterConsumer, 1 Request, 2 Ack, 3 Produced, 4 StoredAck, 5 tick, 6 Terminated (sender symbolic);
-	// Request / Ack are split by who sends them so that the sender is a concrete PID in each job:
-	// 1 / 2 from w1's controller, 7 / 8 from w2's controller, 9 / 10 from anybody else (producer, a later incarnation, a stranger)
-	kind, senderClass := vCase("kind"), -1
-	switch kind {
-	case 1, 2:
-		senderClass = 0
-	case 7, 8:
-		kind, senderClass = kind-6, 1
-	case 9, 10:
-		kind, senderClass = kind-8, 2
-	}
+	// case split: 0 RegisterConsumer, 1 Request, 2 Ack, 3 Produced, 4 StoredAck, 5 tick, 6 Terminated
+	kind := vCase("kind")
 	sender := prod
 	senderWorker := -1 // which worker's *current* controller sends
-	switch senderClass {
-	case 0:
-		sender, senderWorker = ctl[0], 0
+	switch vChoose("sender", 6) {
 	case 1:
-		sender, senderWorker = ctl[1], 1
+		sender, senderWorker = ctl[0], 0
 	case 2:
-		switch vChoose("sender", 4) {
-		case 1:
-			sender = ctlNew[0]
-		case 2:
-			sender = ctlNew[1]
-		case 3:
-			sender = other
-		}
-	default:
-		switch vChoose("sender", 6) {
-		case 1:
-			sender, senderWorker = ctl[0], 0
-		case 2:
-			sender, senderWorker = ctl[1], 1
-		case 3:
-			sender = ctlNew[0]
-		case 4:
-			sender = ctlNew[1]
-		case 5:
-			sender = other
-		}
+		sender, senderWorker = ctl[1], 1
+	case 3:
+		sender = ctlNew[0]
+	case 4:
+		sender = ctlNew[1]
+	case 5:
+		sender = other
 	}
 	var msg any
 	var reqConfirmed, reqUpTo int64
